@@ -13,7 +13,8 @@ Descriptors (all JSON):
   case  = {"cfg": cfg, "palette": [entry...], "ops": [op...]}
   cfg   = {"enc", "colors", "bib" (fg_bright_is_bold), "bce", "alt", "pal_first"}
   op    = ["draw", frame] | ["clear"] | ["winch"] | ["again"] | ["equal"]
-  frame = {"k": "text", "w": W, "rows": [[ [text, attr], ...], ...], "cur": [x, y] | None, "wrap": ...}
+  frame = {"k": "text", "w": W, "rows": [[ [text, attr] | [text, attr, "U"], ...], ...], "cur": [x, y] | None, "wrap": ...}
+          (a third element "U" marks a run in the IBM-PC character set, as urwid's Terminal widget produces)
         | {"k": "widget", "w": W, "h": H, "tree": recipe}
   attr  = None | palette-name | undefined name | ["spec", fg, bg, colors]
 """
@@ -166,8 +167,13 @@ def text_canvas(rows, w, cursor=None):
         tb = b""
         ar = []
         cr = []
-        for text, a in segs:
-            b, cs = apply_target_encoding(text)
+        for seg in segs:
+            text, a = seg[0], seg[1]
+            if len(seg) > 2:
+                b = text.encode("latin-1")
+                cs = [(seg[2], len(b))]
+            else:
+                b, cs = apply_target_encoding(text)
             if not b:
                 continue
             tb += b
@@ -191,7 +197,8 @@ def split_rows_at(rows, k, enc="utf-8"):
     for segs in rows:
         l, r = [], []
         col = 0
-        for text, a in segs:
+        for seg in segs:
+            text, a = seg[0], seg[1]
             lt, rt = "", ""
             for ch in text:
                 cw = 1 if narrow else G.char_width(ch)
@@ -203,9 +210,9 @@ def split_rows_at(rows, k, enc="utf-8"):
                     rt += ch
                 col += cw
             if lt:
-                l.append([lt, a])
+                l.append([lt, a, *seg[2:]])
             if rt:
-                r.append([rt, a])
+                r.append([rt, a, *seg[2:]])
         left.append(l)
         right.append(r)
     return left, right
@@ -1064,7 +1071,7 @@ def unit_w(u, enc):
     return G.char_width(u[0])
 
 
-def gen_row(rng, w, enc, pool: AttrPool, tail=None, c0=False):
+def gen_row(rng, w, enc, pool: AttrPool, tail=None, c0=False, ibm=False):
     """one row descriptor [[text, attr], ...] of width w"""
     utf = enc_mode(enc) == "utf8"
     tail = tail or rng.choice(TAILS)
@@ -1114,15 +1121,20 @@ def gen_row(rng, w, enc, pool: AttrPool, tail=None, c0=False):
         if c > start:
             segs.append(["".join(units[start:c]), pool.pick()])
             start = c
+    if ibm:
+        # some runs in the IBM-PC character set (cs "U", what urwid's Terminal widget emits): latin-1 encodable text only
+        for sg in segs:
+            if rng.random() < 0.5 and all(ord(ch) < 0x100 and ch not in DEC for ch in sg[0]):
+                sg.append("U")
     return segs
 
 
-def gen_text_frame(rng, w, h, enc, pool, cursor_p=0.5, c0_p=0.0):
+def gen_text_frame(rng, w, h, enc, pool, cursor_p=0.5, c0_p=0.0, ibm=False):
     rows = []
     for y in range(h):
         last = y == h - 1
         if last or rng.random() < 0.5:
-            rows.append(gen_row(rng, w, enc, pool, None if rng.random() < 0.8 else "random", c0=rng.random() < c0_p))
+            rows.append(gen_row(rng, w, enc, pool, None if rng.random() < 0.8 else "random", c0=rng.random() < c0_p, ibm=ibm and rng.random() < 0.6))
         else:
             rows.append(gen_row(rng, w, enc, pool, rng.choice(("random", "blank", "blank-tail"))))
     fr = {"k": "text", "w": w, "rows": rows, "cur": None, "wrap": ["text"]}
@@ -1274,9 +1286,10 @@ def gen_case(rng):
     def fresh(w, h):
         if widgety and rng.random() < 0.8:
             return gen_widget_frame(rng, max(w, 3), h, enc, pool)
-        return gen_text_frame(rng, w, h, enc, pool, c0_p=c0_p)
+        return gen_text_frame(rng, w, h, enc, pool, c0_p=c0_p, ibm=ibm)
 
     c0_p = 0.5 if rng.random() < 0.04 else 0.0
+    ibm = enc == "iso8859-1" and rng.random() < 0.12
     cur = fresh(w, h)
     ops.append(["draw", cur])
     for _ in range(rng.randint(0, 11)):
@@ -1374,15 +1387,15 @@ def shrink_raw(ctx, case, sig, budget=140):
             row = fr["rows"][y]
             for si in range(len(row)):
                 if row[si][1] is not None and tries < budget:
-                    r2 = [[t, (None if j == si else a)] for j, (t, a) in enumerate(row)]
+                    r2 = [[sg[0], (None if j == si else sg[1]), *sg[2:]] for j, sg in enumerate(row)]
                     f2 = dict(fr, rows=[r2 if j == y else r for j, r in enumerate(fr["rows"])])
                     if ok(with_frame(f2)):
                         fr = f2
                         cur = with_frame(fr)
                         row = r2
             # merge everything into plain x's except the tail
-            flat = "".join(t for t, _ in row)
-            if len(row) > 1 and all(a is None for _, a in row) and tries < budget:
+            flat = "".join(sg[0] for sg in row)
+            if len(row) > 1 and all(sg[1] is None and len(sg) == 2 for sg in row) and tries < budget:
                 f2 = dict(fr, rows=[[[flat, None]] if j == y else r for j, r in enumerate(fr["rows"])])
                 if ok(with_frame(f2)):
                     fr = f2
@@ -1467,7 +1480,7 @@ def shrink_html(ctx, wit, sig, budget=40):
         row = fr["rows"][y]
         for si in range(len(row)):
             if row[si][1] is not None:
-                r2 = [[t, (None if j == si else a)] for j, (t, a) in enumerate(row)]
+                r2 = [[sg[0], (None if j == si else sg[1]), *sg[2:]] for j, sg in enumerate(row)]
                 f2 = dict(fr, rows=[r2 if j == y else r for j, r in enumerate(fr["rows"])])
                 if ok(f2):
                     fr = f2
